@@ -22,6 +22,11 @@
                                      through the same codec and a third time through the other one
         observed (1 #w0 #s0 rW1 rS1 Q1 Q2 Q3)    w0/s0 = wire / text form before the first send,
                                      Q = (1 hdr body errno) delivered | (0)
+     (9 what what what)              three packets with numeric bodies / error codes: BodyToBytes on
+                                     all three first, the slices inspected afterwards; then the
+                                     first crosses V2 while the others' wire forms are produced again
+        observed (1 #wa #wb #wc Q)
+     (10 seed goroutines iters)      concurrent stress evaluated in Go       observed (10 code)
      (5 codec hdr gov registered valid)   through codec V<codec> (no compression, no cipher),
                                      then Decode() on the receiver; registered = a message type
                                      is registered under hdr's command, valid = proto.Unmarshal
@@ -304,6 +309,44 @@ Definition check_resend (codec thr : Z) (h : hdr) (ec : option Z) (g : gov) (wid
            end)) in
   vjoin prop corr.
 
+(* ---- scenario 9: several numeric wire forms held at the same time ------------------------- *)
+Definition what_packet (i : Z) (w : sx) : option (packet * Z * option Z) :=   (* packet, widening datum, code *)
+  let p0 := mkPkt (100 + i) i 0 0 0 BNil [] None in
+  match w with
+  | SList [SInt 0; SInt ec] => Some (set_errno ec p0, 0, Some ec)
+  | SList [SInt 1; g] =>
+      match gov_of g with
+      | Some (g, wide) => Some (with_body p0 (set_body (no_oracle wide) g), wide, None)
+      | None => None
+      end
+  | _ => None
+  end.
+
+(* the held bytes still are the wire form of the value: the integer / float decodes from them *)
+Definition held_ok (p : packet) (w : list Z) : bool :=
+  match pbody p with
+  | BInt z => let '(x, n) := varint w in (n =? Z.of_nat (length w)) && (x =? z)
+  | BFloat f => let '(x, n) := uvarint w in (n =? Z.of_nat (length w)) && (x =? f)
+  | b => zlist_eqb w (body_to_bytes b)
+  end.
+
+Definition check_hold (a b c : packet * Z * option Z) (wa wb wc : list Z)
+           (d : option (hdr * option body * Z)) : verdict :=
+  let pa := fst (fst a) in let pb := fst (fst b) in let pc := fst (fst c) in
+  let corr :=
+    vjoin (check_that (zlist_eqb (body_to_bytes (pbody pa)) wa && zlist_eqb (body_to_bytes (pbody pb)) wb &&
+                       zlist_eqb (body_to_bytes (pbody pc)) wc) (VMismatch 27))
+          (check_that (q_matches (wire_v2 tag_coders 8192 false false pa) d) (VMismatch 28)) in
+  let prop :=
+    vjoin (check_that (held_ok pa wa && held_ok pb wb && held_ok pc wc) (VPropFail 3))
+          (match snd a, d with
+           | Some e, Some (_, _, e1) => check_that (e1 =? e) (VPropFail 4)
+           | Some _, None => VPropFail 4
+           | None, None => VPropFail 3
+           | None, Some _ => VOk
+           end) in
+  vjoin prop corr.
+
 (* ---- scenario 4: reply / refuse ----------------------------------------------------- *)
 Definition check_reply (h : hdr) (mode command : Z) (argb : body) (argec : Z)
            (obs : option (Z * hdr * option body * Z * option (list Z))) : verdict :=
@@ -356,6 +399,15 @@ Definition check (c : sx) : verdict :=
           else VBad
       | _, _, _, _, _, _ => VBad
       end
+  | SList [SList [SInt 9; a; b; c]; SList [SInt 1; SBytes wa; SBytes wb; SBytes wc; d]] =>
+      match what_packet 0 a, what_packet 1 b, what_packet 2 c, q_of d with
+      | Some a, Some b, Some c, Some d => check_hold a b c (zs wa) (zs wb) (zs wc) d
+      | _, _, _, _ => VBad
+      end
+  (* separate packets on concurrent goroutines, evaluated in Go (harness/cmd/c07: concurrentBodies):
+     (10 seed goroutines iterations) -> (10 code), code 0 ok | 3 wire form | 4 errno | 5 panic *)
+  | SList [SList [SInt 10; SInt _; SInt _; SInt _]; SList [SInt 10; SInt code]] =>
+      if code =? 0 then VOk else if code =? 4 then VPropFail 4 else VPropFail 3
   (* a large text / byte body evaluated in Go (harness/cmd/c07: bigBody):
      (7 kind size seed codec thr enc) -> (7 code), code 0 ok | 1 read-back | 3 wire form / after the wire *)
   | SList [SList [SInt 7; SInt _; SInt _; SInt _; SInt _; SInt _; SInt _]; SList [SInt 7; SInt code]] =>
